@@ -20,6 +20,8 @@ import logging
 logging.disable(logging.CRITICAL)
 import sc3.base.main as m
 import c01_lib as L
+import c20_extras as X
+import gc
 
 
 def hexbytes(sd):
@@ -34,6 +36,21 @@ def main():
     progs, fails = pl['progs'], pl['fail_progs']
     res = [{'desc': None, 'bytes': []} for _ in progs]
     ctxlog = []
+    goods = X.good()
+    xres = {name: [] for name, _ in goods}
+    xfail_log = []
+    args_before = X.shared_args_state()
+
+    def build_extras(skip_big=False):
+        for name, b in goods:
+            if skip_big and name == 'big300':
+                continue
+            try:
+                xres[name].append(hexbytes(b()))
+            except BaseException as e:   # noqa
+                if m.main._current_synthdef is not None:
+                    m.main._current_synthdef = None
+                xres[name].append('FAIL:' + type(e).__name__ + ':' + str(e)[:80])
 
     def build(i, first=False):
         d, sd = L.build(progs[i], 'p%d' % i)
@@ -43,13 +60,28 @@ def main():
             return hexbytes(sd)
         return 'FAIL:' + d['err']
 
+    cls_ref = [None]
+
     def check(phase):
-        ctxlog.append([phase, L.ctx_state(), L.outside_ugen_has_no_def()])
+        st = L.ctx_state()
+        ctxlog.append([phase, st, L.outside_ugen_has_no_def()])
+        if cls_ref[0] is not None:
+            now = X.class_state()
+            if now != cls_ref[0]:
+                ctxlog.append(['class-state', [phase, [x for x in now if x not in cls_ref[0]][:4],
+                                               [x for x in cls_ref[0] if x not in now][:4]], None])
+                cls_ref[0] = now
+        if not st[0]:
+            # keep the rest of the run meaningful: the leak is logged, the context is reset by hand
+            m.main._current_synthdef = None
 
     # (1) twice in a row
     for i in range(len(progs)):
         res[i]['bytes'].append(build(i, True))
         res[i]['bytes'].append(build(i))
+    build_extras()
+    build_extras()
+    cls_ref[0] = X.class_state()
     check('after-plain')
     # (2) after failing builds
     for j, fp in enumerate(fails):
@@ -58,6 +90,23 @@ def main():
         for i in range(len(progs)):
             if (i + j) % max(1, len(fails)) == 0 or len(progs) < 8:
                 res[i]['bytes'].append(build(i))
+    # (2b) builds written in Python failing at every point of SynthDef._build (graph function at its first
+    #      statement / after the controls / after units, wrapped functions, argument processing, optimiser,
+    #      constant collection, input checks; Exception and BaseException subclasses), each followed by the
+    #      context / outside-unit / class-state checks and by rebuilding good definitions
+    for k, (name, b) in enumerate(X.fails()):
+        try:
+            b()
+            kind = 'ok'
+        except BaseException as e:   # noqa: every kind is classified, SystemExit / KeyboardInterrupt included
+            kind = type(e).__name__
+            msg = str(e)[:160]
+        xfail_log.append([name, kind, '' if kind == 'ok' else msg])
+        check('after-xfail-%s-%s' % (name, kind))
+        build_extras(skip_big=(k % 8 != 0))
+        if progs:
+            res[k % len(progs)]['bytes'].append(build(k % len(progs)))
+    check('after-xfails')
     # (3) threads
     lock = threading.Lock()
     terrs = []
@@ -73,6 +122,11 @@ def main():
                         res[i]['bytes'].append(b)
                     if fails and n % 3 == k % 3:
                         L.build(fails[(n + k) % len(fails)], 'tf')
+                for name, b in goods[k::2]:
+                    if name != 'big300':
+                        hb = hexbytes(b())
+                        with lock:
+                            xres[name].append(hb)
         except BaseException as e:   # noqa
             terrs.append(repr(e))
     ts = [threading.Thread(target=worker, args=(k,)) for k in range(pl.get('threads', 4))]
@@ -106,7 +160,23 @@ def main():
         ctxlog.append(['library-use-error', repr(e)[:200], None])
     for i in range(len(progs)):
         res[i]['bytes'].append(build(i))
+    build_extras()
     check('after-library-use')
+    # (5a) allocation history: the addresses (hence the hashes, hence the set iteration order) of the unit
+    #      generators of a build depend on what was allocated and freed before
+    junk = []
+    for r in range(3):
+        junk.append([object() for _ in range(37 + 101 * r)])
+        junk.append([[j] * (r + 1) for j in range(53 * (r + 1))])
+        if r == 1:
+            del junk[0]
+            gc.collect()
+        keep = [L.build(progs[i], 'j%d' % i)[1] for i in range(0, len(progs), 3)]   # definitions kept alive
+        for i in range(len(progs)):
+            res[i]['bytes'].append(build(i))
+        build_extras(skip_big=(r != 0))
+        del keep
+    check('after-allocation-jitter')
     # (5b) description reads (SynthDesc.new_from / SynthDef.add / SynthDesc._read_stream) that succeed or fail:
     #      a definition using a UGen class that is not in installed_ugens, truncated and corrupt bytes.
     import io
@@ -157,6 +227,7 @@ def main():
     read_log = reads()
     for i in range(len(progs)):
         res[i]['bytes'].append(build(i))
+    build_extras(skip_big=True)
     check('after-reads')
     # (6) BaseException probe -- observation only; the context is reset by hand afterwards
     probe = {}
@@ -164,8 +235,28 @@ def main():
     probe['ctx'] = L.ctx_state()
     probe['outside_has_no_def'] = L.outside_ugen_has_no_def()
     m.main._current_synthdef = None
+    # (7) a build started by the graph function of another build (same thread): observation only.  Last,
+    #     because a dead-locked thread keeps the build lock for ever.
+    nested = {}
+
+    def nested_build():
+        def outer():
+            from sc3.synth.synthdef import SynthDef as SD
+            from sc3.synth.ugens.foscillators import Saw
+            SD('x_inner', lambda: Out.ar(0, Saw.ar(1)))
+            Out.ar(0, Saw.ar(2))
+        try:
+            sd = SynthDef('x_outer', outer)
+            nested['result'] = [type(u).__name__ for u in sd._children]
+        except BaseException as e:   # noqa
+            nested['result'] = 'raised ' + type(e).__name__
+    t = threading.Thread(target=nested_build, daemon=True)
+    t.start()
+    t.join(3)
+    nested['finished'] = not t.is_alive()
     json.dump({'progs': res, 'ctx': ctxlog, 'base_probe': probe, 'thread_errors': terrs, 'reads': read_log,
-               'catalogue_bad': L.check_catalogue()}, open(sys.argv[2], 'w'))
+               'extras': xres, 'xfails': xfail_log, 'args_before': args_before, 'args_after': X.shared_args_state(),
+               'nested': nested, 'catalogue_bad': L.check_catalogue()}, open(sys.argv[2], 'w'))
     sys.stdout.flush()
     os._exit(0)      # RT mode keeps non-daemon threads alive
 
